@@ -217,7 +217,16 @@ class World:
         closed = {}
         # M addresses itself too: its own copy travels through its own FIFO queue, so everything
         # queued for M before is read before the marker (a PING would not guarantee that)
-        self.mon.send("PRIVMSG %s :%s" % (",".join(targets + [MON]), tag))
+        # (several lines when the nicknames are long: a line over the server's length limit would end the monitor)
+        chunks, cur = [], []
+        for n in targets + [MON]:
+            if cur and len(",".join(cur + [n]).encode("utf-8", "replace")) > 1400:
+                chunks.append(cur)
+                cur = []
+            cur.append(n)
+        chunks.append(cur)
+        for ch in chunks:
+            self.mon.send("PRIVMSG %s :%s" % (",".join(ch), tag))
         try:
             lines = self.mon.read_until(lambda m: m.verb == "PRIVMSG" and m.params[-1:] == [tag]
                                         and (m.source or "").startswith(MON + "!"), self.watchdog)
